@@ -365,6 +365,11 @@ func (w *polWorld) runClient(ci int, script *polConn, s *sut.SUT, mitmCA *x509.C
 		b.WriteString("\r\n")
 		conn.Write(b.Bytes())
 		m, err := h1.ReadResponse(br, "CONNECT")
+		if err == nil {
+			env.CountResponse("CONNECT", m.Status)
+		} else {
+			env.AcctInexact = true
+		}
 		if err != nil || m.Status != 200 {
 			// the CONNECT itself was refused: the inner requests cannot take place
 			for i := range script.Reqs {
@@ -408,13 +413,23 @@ func (w *polWorld) runClient(ci int, script *polConn, s *sut.SUT, mitmCA *x509.C
 		w.results = append(w.results, res)
 		w.mu.Unlock()
 		if err != nil {
+			env.AcctInexact = true
 			return
 		}
+		env.CountResponse(method, m.Status)
 		if r.Kind == "connect" {
 			if m.Status/100 == 2 {
 				// probe through the tunnel
 				fmt.Fprintf(conn, "GET /%s-inner HTTP/1.1\r\nHost: %s\r\nX-Inner: 1\r\n\r\n", r.Token, r.Host)
 				res.Inner, res.InnerErr = h1.ReadResponse(br, "GET")
+				if w.c.MITM {
+					// under MITM the probe is a proxied request of its own
+					if res.InnerErr == nil {
+						env.CountResponse("GET", res.Inner.Status)
+					} else {
+						env.AcctInexact = true
+					}
+				}
 				return
 			}
 		}
